@@ -99,6 +99,39 @@ CHECKS = {
              "parameters, unary chains); arbitrary string contents through the render/decode leaf lemmas.",
         note="Symbolic text cannot be lexed under CrossHair, so arbitrary string contents are covered by composing the leaf "
              "lemmas with C06's Engine-A obligation that every member of the STRING language is one STRING token."),
+    "C06": dict(
+        level="model_checking", engine="rexcirc+chx", design="DESIGN.md section 4 C06",
+        technique="z3 over the live SLY master regex translated to a prioritised-NFA circuit on a bounded symbolic string "
+                  "(kind and extent of every literal kind vs an independent ABNF transcription), plus CrossHair on the real "
+                  "token actions / py_val (values)",
+        text="For each literal kind and for identifiers: for every text s.d.rest with s in the reference (ABNF) language and d a "
+             "legal delimiter, the first lexer step yields exactly that kind with extent |s| (z3, all characters symbolic within "
+             "N); literal followed by an operator lexes the operator next; token actions and py_val compute the exact value "
+             "(CrossHair, symbolic lexemes / small ints).",
+        note="Bounds per kind N=16/20/44, alphabet ASCII + representatives of every non-ASCII class of the pattern (partition "
+             "computed with re on each run); circuit validated against re on ~4000 samples and on every witness per run; "
+             "float/calendar py_val evaluated on finite pools; one known finding (combining marks inside identifiers)."),
+    "C19": dict(
+        level="model_checking", engine="rexcirc+chx", design="DESIGN.md section 4 C19",
+        technique="z3 over two coupled lexer circuits (ASCII case-flip invariance of kind/extent; operator keywords with "
+                  "arbitrary whitespace runs), CrossHair on token actions / py_val under case changes and on the real parser "
+                  "with symbolic optional-whitespace / keyword-case choices",
+        text="Lexer level: for every text within the bound, flipping the case of any subset of ASCII letters does not change "
+             "token kind/extent; every operator keyword with any whitespace run of length 1..3 on both sides is exactly that "
+             "operator token. Value level: Boolean/duration/exponent/T-Z spellings give equal values.",
+        note="Lexer-level claims are bounded by N (16..44) and the working alphabet; parser/backends layers use symbolic "
+             "layout picks on enumerated filter shapes (text concrete per path)."),
+    "C07": dict(
+        level="model_checking", engine="chx", design="DESIGN.md section 4 C07",
+        technique="CrossHair symbolic execution (z3) of the three SQL dialect visitors with the string-literal content "
+                  "(<= 3 arbitrary code points) and field names symbolic; non-interference of the token sequence decided with "
+                  "an independent SQL scanner run inside the harness",
+        text="Per (dialect, alias, syntactic position): for every literal content within the bound the emitted SQL has the "
+             "same token sequence outside string literals / quoted identifiers as for the empty literal, the same number of "
+             "string tokens, and the literal's token decodes back to the content; likewise for field names.",
+        note="Trusts CrossHair/z3 and the standard-SQL scanner (verif/sqllex); content length <= 3 (LIKE-pattern positions in "
+             "quick: <= 2); known finding: the ESCAPE clause is appended only when the literal contains a wildcard (pinned "
+             "tests forbid always emitting it), normalised away before comparison."),
 }
 
 NOT_YET = {}
@@ -177,6 +210,16 @@ SOURCE_COMMITS = [
     "775739e fix: roundtrip keeps parentheses around right operands of equal precedence",
     "43553c4 fix: roundtrip supports named parameters and geography literals",
     "606e76a fix: collection lambdas on paths of three or more segments parse instead of raising AttributeError",
+    "2c4c693 fix: SQLAlchemy backends read boolean literals case-insensitively",
+    "0d44a5e fix: SQLAlchemy backends translate 'null eq x' to IS NULL like 'x eq null'",
+    "685f5e9 fix: SQLAlchemy backends escape LIKE wildcards in literal search strings",
+    "ceaa604 fix: SQLAlchemy ORM shorthand joins navigated relationships with an outer join",
+    "872e0a9 fix: Django all() lambdas are negated again on recent Django versions",
+    "90e0209 fix: Django backend accepts the null literal on the left of eq/ne",
+    "09d9d61 fix: identifiers starting with a keyword are no longer split by the lexer",
+    "5b1d5e9 fix: time literals no longer accept a doubled colon before the seconds",
+    "8c291c9 fix: dates with a year below 1000 are recognised as dates",
+    "2cc12b4 fix: identifiers may start with a non-ASCII letter",
 ]
 
 if __name__ == "__main__":
